@@ -3,6 +3,7 @@ package main
 import (
 	"fmt"
 	"go/token"
+	"go/types"
 
 	"golang.org/x/tools/go/ssa"
 )
@@ -82,13 +83,12 @@ func ruleS2(c *Ctx, id string) {
 	addName := c.fn(id, "dir.AddName")
 	remName := c.fn(id, "dir.RemName")
 	lookup := c.fn(id, "dir.LookupName")
-	doDec := c.fn(id, "nfs.(*Nfs).doDecLink")
 	doCreate := c.fn(id, "nfs.(*Nfs).doCreate")
 	doRemove := c.fn(id, "nfs.(*Nfs).doRemove")
 	ren := c.fn(id, "nfs.(*Nfs).NFSPROC3_RENAME")
 	getAlloc := c.fn(id, "nfs.(*Nfs).getAlloc")
 	getInodesLocked := c.fn(id, "nfs.(*Nfs).getInodesLocked")
-	if addName == nil || remName == nil || doDec == nil || doCreate == nil || doRemove == nil || ren == nil || getAlloc == nil || lookup == nil || getInodesLocked == nil {
+	if addName == nil || remName == nil || V.DecLink == nil || doCreate == nil || doRemove == nil || ren == nil || getAlloc == nil || lookup == nil || getInodesLocked == nil {
 		return
 	}
 	R.Analysed[FuncName(doCreate)] = true
@@ -121,7 +121,7 @@ func ruleS2(c *Ctx, id string) {
 			}
 		}
 		px.OnCall = func(st *PXState, call ssa.CallInstruction) {
-			if call.Common().StaticCallee() == doDec {
+			if c2, ok := call.(*ssa.Call); ok && unlinkOf(c, c2) != nil {
 				st.Flags["dec"] = true
 			}
 		}
@@ -155,10 +155,11 @@ func ruleS2(c *Ctx, id string) {
 	for _, rc := range P.CallsIn(doRemove, funcIs(remName)) {
 		rcv := rc.(*ssa.Call)
 		isDec := func(in ssa.Instruction) bool {
-			if !callTo(doDec)(in) {
+			ipv := unlinkOf(c, in)
+			if ipv == nil {
 				return false
 			}
-			u, ok := stripConv(callCommon(in).Args[2]).(*ssa.UnOp)
+			u, ok := stripConv(ipv).(*ssa.UnOp)
 			if !ok {
 				return false
 			}
@@ -173,7 +174,7 @@ func ruleS2(c *Ctx, id string) {
 		// same name as looked up
 		sameName := false
 		for _, gl := range P.CallsIn(doRemove, funcIs(getInodesLocked)) {
-			if stripConv(callCommon(gl).Args[2]) == stripConv(rcv.Call.Args[2]) {
+			if stripConv(nameArg(gl)) == stripConv(rcv.Call.Args[2]) {
 				sameName = true
 			}
 		}
@@ -185,7 +186,7 @@ func ruleS2(c *Ctx, id string) {
 		_, path := paramFieldPath(rcv.Call.Args[2])
 		switch path {
 		case "To.Name":
-			ok := MustAfterE(ren, callTo(doDec), nil, boolEdge(ren, rcv, false))(rc)
+			ok := MustAfterE(ren, func(in ssa.Instruction) bool { return unlinkOf(c, in) != nil }, nil, boolEdge(ren, rcv, false))(rc)
 			R.Check(ok, id, "NFSPROC3_RENAME|RemName(To.Name) then unlink of the replaced inode", P.Pos(rc.Pos()), "after the target name is removed every path unlinks the replaced inode", "must-follow on the ok edge", "the replaced object keeps its inode and blocks for ever")
 		case "From.Name":
 			isAdd := func(in ssa.Instruction) bool {
@@ -223,19 +224,31 @@ func ruleS2(c *Ctx, id string) {
 			R.Fail(id, "NFSPROC3_RENAME|RemName of an unexpected name", P.Pos(rc.Pos()), "RENAME removes only its source and target names", "name "+path)
 		}
 	}
-	// (c) doDecLink callers
-	for _, cs := range P.CallersOf(doDec) {
-		if !IsRepoFunc(cs.Caller) {
+	// (c) every place that drops a link of an inode (Inode.DecLink itself, or a helper such as doDecLink that does
+	// so for the inode it is handed)
+	for _, fn := range P.RepoFuncs("nfs") {
+		if fn.Blocks == nil || isUnlinkHelper(c, fn) {
 			continue
 		}
-		fn := cs.Caller
-		key := FuncName(ownerOf(fn)) + "|doDecLink justified"
-		switch ownerOf(fn) {
-		case doCreate:
-			// unwind: every path on which the unlink ran reports an error (path exploration of (a))
-			R.Check(createExplored && createUnwindBad == "", id, key+"|unwind", P.Pos(cs.Instr.Pos()), "in doCreate the unlink is an unwind: every path after it reports an error", "error status follows on every explored path", "a created inode is unlinked on a path that may report success (return at "+createUnwindBad+")")
-		default:
-			R.Check(MustBefore(fn, callTo(remName))(cs.Instr), id, key, P.Pos(cs.Instr.Pos()), "an inode is unlinked only after a name of it was removed in the same function", "RemName precedes on every path", "link count dropped without removing a name: a name pointing to a freed inode")
+		for _, b := range fn.Blocks {
+			for _, in := range b.Instrs {
+				if unlinkOf(c, in) == nil {
+					continue
+				}
+				key := FuncName(ownerOf(fn)) + "|doDecLink justified"
+				own := ownerOf(fn)
+				if partOf(fn, doCreate) {
+					own = doCreate
+					key = FuncName(doCreate) + "|doDecLink justified"
+				}
+				switch own {
+				case doCreate:
+					// unwind: every path on which the unlink ran reports an error (path exploration of (a))
+					R.Check(createExplored && createUnwindBad == "", id, key+"|unwind", P.Pos(in.Pos()), "in doCreate the unlink is an unwind: every path after it reports an error", "error status follows on every explored path", "a created inode is unlinked on a path that may report success (return at "+createUnwindBad+")")
+				default:
+					R.Check(MustBefore(fn, callTo(remName))(in), id, key, P.Pos(in.Pos()), "an inode is unlinked only after a name of it was removed in the same function", "RemName precedes on every path", "link count dropped without removing a name: a name pointing to a freed inode")
+				}
+			}
 		}
 	}
 }
@@ -305,9 +318,9 @@ func ruleS3(c *Ctx, id string) {
 	}
 	R.Check(dec, id, "nfs.doRemove|parent link dropped with the sub-directory", P.Pos(doRemove.Pos()), "removing a directory decrements the parent's Nlink in the same transaction", "decrement present", "RMDIR never gives back the link MKDIR added: a directory that ever had a sub-directory is never freed (inode and blocks leaked)")
 	// ... and on every path on which the object unlinked is a directory (whichever procedure asked)
-	if doDec := P.Func("nfs.(*Nfs).doDecLink"); dec && doDec != nil {
-		for _, call := range P.CallsIn(doRemove, funcIs(doDec)) {
-			obj := stripConv(argN(call, 1))
+	if dec {
+		for _, call := range unlinkCalls(c, doRemove) {
+			obj := stripConv(unlinkOf(c, call))
 			notDir := condEdge(doRemove, func(cd Cond) (bool, bool) {
 				n, fl, base, _ := loadedField(cd.X)
 				k, isk := constInt(cd.Y)
@@ -475,9 +488,9 @@ func ruleS4(c *Ctx, id string) {
 		}
 		// object = 'to' (the value passed to doDecLink after it)
 		var toVal ssa.Value
-		for _, dc := range P.CallsIn(ren, func(f *ssa.Function) bool { return f.Name() == "doDecLink" }) {
+		for _, dc := range unlinkCalls(c, ren) {
 			if reachableFrom(rc, dc) {
-				toVal = stripConv(callCommon(dc).Args[2])
+				toVal = stripConv(unlinkOf(c, dc))
 			}
 		}
 		obj := func(v ssa.Value) bool {
@@ -743,4 +756,107 @@ func helperClassEdge(fn *ssa.Function, sub Subst, ok func(h *ssa.Function, hs Su
 		}
 	}
 	return func(from, to *ssa.BasicBlock) bool { return set[edge{from, to}] }
+}
+
+// inodeArg: the (first) argument of type *inode.Inode of a call; nameArg: the
+// first argument of type Filename3.  Found by type, so that a helper may be a
+// method or a plain function with its state passed explicitly.
+func inodeArg(in ssa.Instruction) ssa.Value {
+	cc := callCommon(in)
+	if cc == nil {
+		return nil
+	}
+	for _, a := range cc.Args {
+		if isInodePtr(a.Type()) {
+			return a
+		}
+	}
+	return nil
+}
+
+func nameArg(in ssa.Instruction) ssa.Value {
+	cc := callCommon(in)
+	if cc == nil {
+		return nil
+	}
+	for _, a := range cc.Args {
+		if n, ok := types.Unalias(a.Type()).(*types.Named); ok && n.Obj().Name() == "Filename3" {
+			return a
+		}
+	}
+	return nil
+}
+
+// unlinkOf: in drops one link of an inode - a call of Inode.DecLink, or of a
+// go-nfsd helper (doDecLink) that calls DecLink on every path for an inode
+// parameter; returns that inode (nil if in is no such call).
+func unlinkOf(c *Ctx, in ssa.Instruction) ssa.Value {
+	call, ok := in.(*ssa.Call)
+	if !ok {
+		return nil
+	}
+	cal := call.Call.StaticCallee()
+	if cal == nil {
+		return nil
+	}
+	if cal == c.V.DecLink {
+		return recvOf(call)
+	}
+	if i := unlinkParam(c, cal, 0); i >= 0 && i < len(call.Call.Args) {
+		return call.Call.Args[i]
+	}
+	return nil
+}
+
+var unlinkMemo = map[*ssa.Function]int{}
+
+// unlinkParam: the index of the inode parameter of helper f on which f always
+// performs DecLink (-1: f is not an unlink helper).
+func unlinkParam(c *Ctx, f *ssa.Function, d int) int {
+	if v, ok := unlinkMemo[f]; ok {
+		return v - 1
+	}
+	unlinkMemo[f] = 0
+	res := -1
+	if IsRepoFunc(f) && f.Blocks != nil && d < 2 && relPkg(f) == "nfs" {
+		for i, p := range f.Params {
+			if !isInodePtr(p.Type()) {
+				continue
+			}
+			pv := ssa.Value(p)
+			is := func(in ssa.Instruction) bool {
+				cl, ok := in.(*ssa.Call)
+				if !ok || cl.Call.StaticCallee() == nil {
+					return false
+				}
+				if cl.Call.StaticCallee() == c.V.DecLink {
+					return stripConv(recvOf(cl)) == pv
+				}
+				if j := unlinkParam(c, cl.Call.StaticCallee(), d+1); j >= 0 && j < len(cl.Call.Args) {
+					return stripConv(cl.Call.Args[j]) == pv
+				}
+				return false
+			}
+			entry := f.Blocks[0].Instrs[0]
+			if is(entry) || MustAfter(f, is, nil)(entry) {
+				res = i
+			}
+		}
+	}
+	unlinkMemo[f] = res + 1
+	return res
+}
+
+func isUnlinkHelper(c *Ctx, f *ssa.Function) bool { return unlinkParam(c, f, 0) >= 0 }
+
+func unlinkCalls(c *Ctx, fn *ssa.Function) []ssa.Instruction {
+	var out []ssa.Instruction
+	for _, b := range fn.Blocks {
+		for _, in := range b.Instrs {
+			if unlinkOf(c, in) != nil {
+				out = append(out, in)
+			}
+		}
+	}
+	return out
 }
